@@ -383,11 +383,11 @@ class Engine:
 
     # ------------------------------------------------------------------ clauses (spec expressions)
     def eval_clause(self, st, clause, split=False):
+        if isinstance(clause, tuple):
+            clause = clause[1]
         if callable(clause):
             r = clause(self, st)
         else:
-            if isinstance(clause, tuple):
-                clause = clause[1]
             node = ast.parse(clause.strip(), mode="eval").body
             r = self.eval(node, st)
         if split and isinstance(r, (list, tuple)) and len(r) > 1:
@@ -782,7 +782,10 @@ class Engine:
                 self.check_invariant(s1, spec, o, "inv-preserve")
                 if v0 is not None:
                     v1 = auto_variant(s1) if auto_variant else self.eval_variant(s1, spec)
-                    self.oblige(s1, "variant", z3.And(v0 >= 0, v1 < v0), "L%d" % o)
+                    if isinstance(v0, z3.BitVecRef):
+                        self.oblige(s1, "variant", z3.ULT(v1, v0), "L%d" % o)   # unsigned machine integers are well-founded under <
+                    else:
+                        self.oblige(s1, "variant", z3.And(v0 >= 0, v1 < v0), "L%d" % o)
                 self.paths += 1
             elif flow[0] == Flow.BREAK:
                 yield s1, (Flow.NEXT,)
